@@ -26,7 +26,8 @@ def sim_kwargs(configfile, outfile, gtis=None, **over):
     kwargs['scdata'] = False
     kwargs.setdefault('calib_pattern', None)
     if kwargs['calib_pattern'] is None:
-        kwargs['calib_pattern'] = xOnOrbitCalibrationPattern([], xCalC(100.), 1)
+        # `octis` (list of (start, stop)): on-orbit calibration intervals, as the timeline would provide them while the target is occulted
+        kwargs['calib_pattern'] = xOnOrbitCalibrationPattern([tuple(x) for x in (kwargs.pop('octis', None) or [])], xCalC(float(kwargs.get('calibrate', 100.) or 100.)), 1)
     kwargs['outfile'] = outfile
     if kwargs.get('objname') is None:
         kwargs['objname'] = 'test'
@@ -46,5 +47,15 @@ def simulate(configfile, outfile, gtis=None, du_id=1, seed=1, roi_model=None, **
     numpy.random.seed(seed + du_id - 1)
     irf_set = load_irf_set(kwargs['irfname'], du_id, gray_filter=bool(kwargs.get('grayfilter')))    # as bin/xpobssim.py does
     event_list = roi_model.rvs_event_list(irf_set, **kwargs)
+    # on-orbit calibration runs, exactly as the DU loop of bin/xpobssim.py adds them
+    calib_runs = kwargs['calib_pattern'][du_id] if kwargs.get('onorbitcalib') else []
+    if len(calib_runs) > 0:
+        from ixpeobssim.evt.event import xEventList
+        calib_event_list = xEventList()
+        for run in calib_runs:
+            _kwargs = dict(start_met=run.start_met, duration=run.duration, deadtime=kwargs.get('deadtime'))
+            calib_event_list += run.calibration_source.rvs_event_list(irf_set, **_kwargs)
+        if calib_event_list.num_events() > 0:
+            event_list += calib_event_list
     event_list.write_fits('verif', roi_model, irf_set, **kwargs)
     return outfile
